@@ -88,6 +88,8 @@ func VerifC19Middleware() {
 			fallbackUsed = true
 			return nil
 		}))
+	} else if rt.Bool("nilFallback") {
+		opts = append(opts, WithBlockFallback(nil)) // an explicitly nil fallback counts as not configured
 	}
 	mw := SentinelMiddleware(opts...)
 	rt.HookCall("(*github.com/gofiber/fiber/v2.Ctx).Next", func() { verifHandlerMode(o, mode) })
